@@ -55,7 +55,7 @@ class Checker:
         if sum(1 for x in self.viol if x["key"] == key) < 3:
             self.viol.append({"key": key, "msg": msg, "witness": w})
 
-    def check_reload(self, path, written, world, w):
+    def check_reload(self, path, written, world, w, key_prefix=""):
         """written: list of ids in write order (genesis excluded) that have been flushed"""
         from skepticoin.blockstore import BlockStore, DefaultBlockStore
         import skepticoin.scripts.utils as su
@@ -115,7 +115,7 @@ class Checker:
                        len(damaged), len(expect), world.chain.blocks[sorted(damaged)[0]].height), w)
         elif unexplained:
             d = sorted(unexplained)[0]
-            kind = "written-block-missing" if d not in seen else "written-block-bytes-differ"
+            kind = key_prefix + ("written-block-missing" if d not in seen else "written-block-bytes-differ")
             self.v(kind, "block h=%d (%d transactions) %s after reload; %d damaged in total" % (
                 world.chain.blocks[d].height, len(world.chain.blocks[d].txs), "is missing" if d not in seen else "differs",
                 len(damaged)), w)
@@ -209,6 +209,66 @@ class Checker:
                                  "tx_per_block": [len(world.chain.blocks[b].txs) - 1 for b in order]})
 
 
+def threads_lane(chk, rng, ntrees):
+    """one thread hands blocks to the store while another flushes; a delay injected right after the real sqlite write
+    (the point between 'written' and 'buffer cleared') widens the window in which an unlocked implementation loses blocks"""
+    import threading
+    import time
+    from skepticoin.blockstore import BlockStore
+    for idx in range(ntrees):
+        world = gen.World(rng)
+        world.reuse_pending = False
+        world.grow(rng.choice([10, 16, 24]), rng, tx_prob=0.6)
+        order = world.chain.order[1:]
+        path = os.path.join(os.getcwd(), "tstore-%d.db" % idx)
+        store = quiet(BlockStore, path)
+        real_write = store.write_blocks_to_disk
+        hits = [0]
+
+        def slow_write(blocks, _rw=real_write):
+            _rw(blocks)
+            hits[0] += 1
+            time.sleep(0.003)
+        store.write_blocks_to_disk = slow_write
+        done = threading.Event()
+        errors = []
+
+        def flusher():
+            while not done.is_set():
+                try:
+                    store.flush_blocks_to_disk()
+                except Exception as e:
+                    errors.append(repr(e))
+                    return
+                time.sleep(0.0005)
+
+        def adder():
+            r = random.Random(idx)
+            for bid in order:
+                store.add_block_to_buffer(world.real[bid])
+                time.sleep(r.choice([0, 0.0005, 0.002, 0.004]))
+        tf, ta = threading.Thread(target=flusher), threading.Thread(target=adder)
+        tf.start()
+        ta.start()
+        ta.join(60)
+        done.set()
+        tf.join(60)
+        w = {"lane": "threads", "blocks": gen.blocks_hex(world, order)}
+        chk.c["thread_lane_trees"] = chk.c.get("thread_lane_trees", 0) + 1
+        chk.c["thread_lane_flushes_with_data"] = chk.c.get("thread_lane_flushes_with_data", 0) + hits[0]
+        try:
+            store.write_blocks_to_disk = real_write
+            store.flush_blocks_to_disk()
+        except Exception as e:
+            errors.append(repr(e))
+        if errors:
+            chk.v("concurrent-add-and-flush:flush-fails", "flush raised %s while another thread was handing blocks to the store" % errors[0][:160], w)
+        store.close()
+        chk.c["trees"] += 1
+        chk.check_reload(path, list(order), world, dict(w, flushed=len(order)), key_prefix="concurrent-add-and-flush:")
+        os.remove(path)
+
+
 def replay(chk, w):
     from skepticoin.blockstore import BlockStore
     rng = random.Random(0)
@@ -239,13 +299,17 @@ def replay(chk, w):
 def run_shard(spec):
     env.boot()
     chk = Checker()
-    if "replay" in spec:
+    if "replay" in spec and spec["replay"].get("lane") == "threads":
+        threads_lane(chk, random.Random(1), 6)
+    elif "replay" in spec:
         replay(chk, spec["replay"])
     else:
         rng = random.Random("c08/%d/%d" % (spec["seed"], spec["shard"]))
         quick = spec["tier"] == "quick"
         for j in range(8 if quick else 250):
             chk.run_tree(rng, rng.choice([5, 9, 14, 20, 28]), j, spec["tier"])
+        if spec["shard"] % 4 == 0:
+            threads_lane(chk, rng, 4 if quick else 60)
     return {"evaluations": chk.c["reloads"], "digests": sorted(chk.digests), "violations": chk.viol, "counters": chk.c,
             "samples": chk.samples}
 
@@ -261,6 +325,7 @@ def finalize(m, tier):
                    ("trees_with_forks", c.get("trees_with_forks", 0), 40),
                    ("blocks_with_transactions", c.get("blocks_with_transactions", 0), 300),
                    ("multi_input_transactions", c.get("multi_input_transactions", 0), 100),
-                   ("same_transaction_in_two_blocks", c.get("same_transaction_in_two_blocks", 0), 20)],
+                   ("same_transaction_in_two_blocks", c.get("same_transaction_in_two_blocks", 0), 20),
+                   ("thread_lane_flushes_with_data", c.get("thread_lane_flushes_with_data", 0), 40)],
         "extra": {},
     }
